@@ -210,4 +210,58 @@ func Counter.Update
   requires c != nil && unlocked(c.valueMutex) && c.valueDecreasedCond != nil && c.valueIncreasedCond != nil
   modifies monitor(c)
   ensures unlocked(c.valueMutex)
+
+-- ---------------------------------------------------------------------------------------------------------------
+-- Stack: a container/list under mutex with two condition variables. The list is modelled by its length (ghost
+-- lstlen: list -> number of elements; assumed contracts of container/list). "Only if": the Wait functions return only
+-- in a state (under the lock) in which their condition holds. "If": Push promises a Broadcast on elementAdded while it
+-- holds the lock and delivers it right after.
+global lstlen IntArr
+type Stack
+  monitor mutex guards global:lstlen cond elementAdded, elementRemoved
+  invariant self.elements != nil && sel(lstlen, self.elements) >= 0
+  invariant 0 <= self.sleep_elementAdded && 0 <= self.sleep_elementRemoved && 0 <= self.owed_elementAdded && 0 <= self.owed_elementRemoved && 0 <= self.wake_elementAdded && 0 <= self.wake_elementRemoved
+
+assume-func container/list.List.Len(l) (r)
+  ensures r == sel(lstlen, l)
+assume-func container/list.List.PushBack(l, v) (e)
+  modifies ghost(lstlen)
+  ensures e != nil && lstlen == upd(old(lstlen), l, sel(old(lstlen), l) + 1)
+
+func Stack.Push
+  instantiate T: int
+  opt assume-no-overflow                      -- fewer than 2^63 elements
+  requires b != nil && unlocked(b.mutex) && b.elementAdded != nil
+  modifies monitor(b)
+  ghost before unlock: owe elementAdded
+  ensures unlocked(b.mutex)
+
+func Stack.Size
+  instantiate T: int
+  requires b != nil && unlocked(b.mutex)
+  modifies monitor(b)
+  ensures unlocked(b.mutex) && r0 >= 0
+
+func Stack.WaitSizeIsBelow
+  instantiate T: int
+  requires b != nil && unlocked(b.mutex) && b.elementRemoved != nil
+  modifies monitor(b)
+  loop 1 invariant held(b.mutex) && moninv(b)
+  ghost before unlock: assert sel(lstlen, b.elements) < threshold
+  ensures unlocked(b.mutex)
+
+func Stack.WaitSizeIsAbove
+  instantiate T: int
+  requires b != nil && unlocked(b.mutex) && b.elementAdded != nil
+  modifies monitor(b)
+  loop 1 invariant held(b.mutex) && moninv(b)
+  ghost before unlock: assert sel(lstlen, b.elements) > threshold
+  ensures unlocked(b.mutex)
+
+func Stack.WaitIsEmpty
+  instantiate T: int
+  requires b != nil && unlocked(b.mutex) && b.elementRemoved != nil
+  modifies monitor(b)
+  ghost before call Stack.WaitSizeIsBelow: assert arg1 == 1
+  ensures unlocked(b.mutex)
 @*/
